@@ -165,6 +165,20 @@ theorem tie_cliGlueForwarding :
     Extracted.C04.zrpcCliDial = ["options := c.buildDialOptions(opts...)", "conn, err := grpc.DialContext(timeCtx, server, options...)"] := by
   decide
 
+/-- the delegating entry points as a TYPED forwarding list (function, callee, argument list): zrpc.NewClient hands
+`c.Middlewares` and the whole option list to internal.NewClient, which puts exactly one (balancer) option in front and hands
+`opts...` to `dial`, which hands `opts...` to `buildDialOptions` and its result to grpc; zrpc.WithCallTimeout and
+Server.AddRoute forward all their arguments (model: `none :: …` in `cliConfigDeadline`; one group per AddRoute) -/
+theorem tie_forwarding :
+    Extracted.C04.zrpcForwarding = [
+      ("NewClient", "internal.NewClient", ["target", "c.Middlewares", "opts..."]),
+      ("NewClient", "append", ["[]ClientOption{balancerOpt}", "opts..."]),
+      ("NewClient", "cli.dial", ["target", "opts..."]),
+      ("client.dial", "c.buildDialOptions", ["opts..."]),
+      ("client.dial", "grpc.DialContext", ["timeCtx", "server", "options..."]),
+      ("WithCallTimeout", "clientinterceptors.WithCallTimeout", ["timeout"]),
+      ("Server.AddRoute", "s.AddRoutes", ["[]Route{r}", "opts..."])] := by decide
+
 example : Extracted.C04.cliGlueDialTimeout (none :: Extracted.C04.cliGlueConfOpts 2000 [none, some 7, none] (fun _ => true)) = 7 := by decide
 example : Extracted.C04.cliGlueTimeoutIcpt true 0 = some 0 := by decide
 
